@@ -22,13 +22,13 @@ func init() {
 	fw.Register(&fw.Prop{
 		ID: "C17",
 		Meta: func(tier string) fw.Meta {
-			n := 400
+			n := 416
 			if tier == "thorough" {
 				n = 10000
 			}
 			return fw.Meta{N: n, Level: "exploration", Chunk: 5, CaseTimeoutS: 240, MinNT: 80,
-				Rule:        "one case = one seeded program of 20..120 calls applied to two fresh databases, one through Put/Get/Delete (strings) and one through PutBytes/GetBytes/DeleteBytes, with keys and values drawn from {nil, empty, 1 byte, non-UTF-8, ordinary, 64 KiB}; per call the accept/reject decision and result of both flavours must agree and Put with an empty key or value must answer ErrEmptyKeyValue; a reference map that ignores every call that returned an error is compared with a read of all keys (through both flavours) directly after each call, before/after forced rotation+flush, and before/after clean Close+re-Open (reads must not change merely because of a flush or restart). Every 4th case additionally replays the byte-API program in a traced sub-process and recovers crash images taken after rejected calls (see C02 engine). Non-trivial: >=1 rejected call, >=1 accepted call, >=1 flush and >=1 reopen; distinct by program hash",
-				MinObs:      map[string]int64{"calls_compared": 10000, "rejected_calls": 1500, "nil_arguments": 300, "transitions_flush": 300, "transitions_reopen": 300, "reads_compared": 50000, "calls_rejected_by_failing_wal": 100},
+				Rule:        "one case = one seeded program of 20..120 calls applied to two fresh databases, one through Put/Get/Delete (strings) and one through PutBytes/GetBytes/DeleteBytes, with keys and values drawn from {nil, empty, 1 byte, non-UTF-8, ordinary, 64 KiB}; per call the accept/reject decision and result of both flavours must agree and Put with an empty key or value must answer ErrEmptyKeyValue; a reference map that ignores every call that returned an error is compared with a read of all keys (through both flavours) directly after each call, before/after forced rotation+flush, and before/after clean Close+re-Open (reads must not change merely because of a flush or restart). Every 52nd case instead runs the byte-API program in a traced sub-process and recovers crash images taken after rejected calls (see C02 engine). Non-trivial: >=1 rejected call, >=1 accepted call, >=1 flush and >=1 reopen; distinct by program hash",
+				MinObs:      map[string]int64{"calls_compared": 10000, "rejected_calls": 1500, "nil_arguments": 300, "transitions_flush": 300, "transitions_reopen": 300, "reads_compared": 50000, "calls_rejected_by_failing_wal": 100, "distinct_images_recovered": 800, "rejected_calls_in_traced_sessions": 50},
 				Assumptions: []string{"nil byte slices correspond to empty strings", "Delete/DeleteBytes with an empty key is not documented as rejected; only agreement between the flavours and absence of visible effect is required"},
 			}
 		},
@@ -81,6 +81,22 @@ func showB(v c17val) string {
 }
 
 func runC17(c *fw.Case) {
+	if c.Idx%52 == 51 {
+		// crash-image observation point: a traced byte-API session that mixes rejected and accepted calls; every
+		// crash image must recover to the reference map that ignores the rejected calls (and the empty key stays unreadable)
+		seed := fw.CaseSeed("C17-crash-session", c.Seed, c.Idx)
+		c.HashAdd("c17-crash", seed)
+		sum := e2RunSession(c, e2Config{mode: "c17", seed: seed, nkeys: 8})
+		rej := 0
+		for _, op := range sum.opsList {
+			if op.Kind == "badput" {
+				rej++
+			}
+		}
+		c.Obs("rejected_calls_in_traced_sessions", int64(rej))
+		e2Report(c, sum, fmt.Sprintf("byte-API session with rejected calls seed=%d", seed))
+		return
+	}
 	r := c.R
 	big := gen.Bytes(r, 65536)
 	keyPool := [][]byte{{'a'}, {0xff, 0xfe, 0x80}, []byte("key-1"), []byte("key-2"), {0x00}, append([]byte("bigkey"), big[:60000]...), {0x91, 0x8d, 0x4c}}
